@@ -158,7 +158,7 @@ Definition name_like_op (o : binop) : bool :=
 
 Definition num_tok_ok (t : tok) : bool :=
   match t with
-  | c :: r => (is_digit c || (N.eqb c ch_fullstop && match r with c1 :: _ => is_digit c1 | [] => false end))%bool
+  | c :: r => (is_ascii_digit c || (N.eqb c ch_fullstop && match r with c1 :: _ => is_ascii_digit c1 | [] => false end))%bool
   | [] => false
   end.
 Definition first_name_start (t : tok) : bool := match t with c :: _ => is_name_start c | [] => false end.
@@ -168,7 +168,7 @@ Definition ntest_ok (t : ntest) : bool :=
   | TComment | TText | TNode | TPi None => true
   | TPi (Some s) => negb (has ch_quote s && has ch_apos s)
   | TName NsEmpty None => true
-  | TName NsEmpty (Some n) => first_name_start n
+  | TName NsEmpty (Some n) => valid_ncname n
   | TName _ _ => false               (* prefixed tests: outside the round-trip theorem (they need a prefix for the URI) *)
   | TRoot => false
   end.
